@@ -80,17 +80,23 @@ def r_items(I, st, recv, args, kwargs, fr, k):
     return k(st, B.ItemsOf(recv))
 
 
+DICTLIKE = ["builtins.dict", "urllib3._collections.HTTPHeaderDict"]     # mappings modelled by membership/value arrays
+
+
 def r_dict_copy(I, st, recv, args, kwargs, fr, k):
     """dict.copy() on a heap dict: a fresh dict object with the same membership/map arrays."""
     t = recv.t
     def ok(s2):
         loc = get_loc(t)
-        new = I.alloc(s2, "builtins.dict")
+        new = z3.Int(I.w.fresh("a"))
+        s2.fact(new >= s2.frontier, cls_of(new) == cls_of(loc))       # a copy has the class of the original
+        s2.frontier = new + 1
         s2.write(HAS, new, s2.read(HAS, loc))
         s2.write(MAP, new, s2.read(MAP, loc))
         s2.write(LEN, new, s2.read(LEN, loc))
-        return k(s2, Sym(mk_ref(new), hint="builtins.dict"))
-    return I.branch(st, I.w.isinstance_term(t, ["builtins.dict"]), ok, lambda s2: B.unsupported_path(I, s2, ".copy() on a non-dict"))
+        B.note(I, "mapping.copy(): fresh object of the same class with the same membership/values (HTTPHeaderDict abstracted to its mapping content)")
+        return k(s2, Sym(mk_ref(new), hint=recv.hint if recv.hint in DICTLIKE else None))
+    return I.branch(st, I.w.isinstance_term(t, DICTLIKE), ok, lambda s2: B.unsupported_path(I, s2, ".copy() on a non-mapping"))
 
 
 def r_dict_get(I, st, recv, args, kwargs, fr, k):
@@ -102,7 +108,7 @@ def r_dict_get(I, st, recv, args, kwargs, fr, k):
         has = z3.Select(s2.read(HAS, loc), kt)
         val = z3.Select(s2.read(MAP, loc), kt)
         return k(s2, Sym(z3.If(has, val, I.term(s2, default))))
-    return I.branch(st, I.w.isinstance_term(t, ["builtins.dict"]), ok, lambda s2: B.unsupported_path(I, s2, ".get() on a non-dict"))
+    return I.branch(st, I.w.isinstance_term(t, DICTLIKE), ok, lambda s2: B.unsupported_path(I, s2, ".get() on a non-dict"))
 
 
 STR_METHODS = {"upper": m_upper, "lower": m_lower, "startswith": m_startswith, "endswith": m_endswith,
@@ -417,3 +423,26 @@ def r_dict_update(I, st, recv, args, kwargs, fr, k):
 
 
 REF_METHODS["update"] = r_dict_update
+
+
+def r_dict_pop(I, st, recv, args, kwargs, fr, k):
+    t = recv.t
+    kt = B.as_sym(I, st, args[0]).t
+    def ok(s2):
+        loc = get_loc(t)
+        has = s2.read(HAS, loc)
+        had = z3.Select(has, kt)
+        val = z3.Select(s2.read(MAP, loc), kt)
+        def present(s3):
+            s3.write(HAS, loc, z3.Store(has, kt, z3.BoolVal(False)))
+            s3.write(LEN, loc, s3.read(LEN, loc) - 1)
+            return k(s3, Sym(val))
+        def absent(s3):
+            if len(args) > 1:
+                return k(s3, args[1])
+            return I.raise_(s3, "builtins.KeyError")
+        return I.branch(s2, had, present, absent)
+    return I.branch(st, I.w.isinstance_term(t, DICTLIKE), ok, lambda s2: B.unsupported_path(I, s2, ".pop() on a non-mapping"))
+
+
+REF_METHODS["pop"] = r_dict_pop
